@@ -5,6 +5,57 @@ import shutil
 from lib.common import *
 
 
+
+def cli_memory(v, tier, ev):
+    """The same statement at the command line: peak resident memory of `mlar` while it creates (from a regular file, and
+    from standard input), lists, extracts, cats and repairs, for two sizes: it must not grow with the size."""
+    import subprocess
+    mlar = build_mlar()
+    wd = workdir("c15-cli")
+    sizes = (24, 96) if tier == "quick" else (64, 512)
+    key = os.path.join(wd, "k")
+    subprocess.run([mlar, "keygen", key], check=True, stdout=subprocess.PIPE, stderr=subprocess.PIPE)
+    peaks = {}
+
+    def timed(name, mib, shell_cmd):
+        p = subprocess.run(["/usr/bin/time", "-f", "MAXRSS %M", "bash", "-c", shell_cmd], cwd=wd, stdout=subprocess.PIPE,
+                           stderr=subprocess.PIPE, text=True, timeout=3000, preexec_fn=limit_as)
+        m = [l for l in p.stderr.splitlines() if l.startswith("MAXRSS")]
+        if not m:
+            raise ToolError(f"no memory figure for {name}: {p.stderr[-300:]}")
+        peaks.setdefault(name, {})[mib] = (int(m[-1].split()[1]), p.returncode)
+    for mib in sizes:
+        src = os.path.join(wd, f"in{mib}.bin")
+        with open(src, "wb") as f:
+            blk = bytes((i * 7 + (i >> 8)) & 0xff for i in range(1 << 20))
+            for k in range(mib):
+                f.write(blk[k % 251:] + blk[:k % 251])
+        a = f"a{mib}.mla"
+        # (bash's time is not used: /usr/bin/time reports the peak of the process tree; the pipe feeder is `cat`, tiny)
+        timed("create-file", mib, f"{mlar} create -o {a} -p {key}.pub -q 1 in{mib}.bin 2>/dev/null")
+        timed("create-stdin", mib, f"cat in{mib}.bin | {mlar} create -o s{mib}.mla -l -- /dev/stdin 2>/dev/null")
+        timed("list", mib, f"{mlar} list -vv -i {a} -k {key} >/dev/null 2>&1")
+        timed("cat", mib, f"{mlar} cat -i {a} -k {key} in{mib}.bin >/dev/null 2>&1")
+        timed("extract", mib, f"{mlar} extract -i {a} -k {key} -o x{mib} >/dev/null 2>&1")
+        timed("to-tar", mib, f"{mlar} to-tar -i {a} -k {key} -o t{mib}.tar >/dev/null 2>&1")
+        timed("repair", mib, f"{mlar} repair -i {a} -k {key} -o r{mib}.mla -l >/dev/null 2>&1")
+        timed("convert", mib, f"{mlar} convert -i {a} -k {key} -o c{mib}.mla -l compress -q 0 >/dev/null 2>&1")
+        for f in (src, a, f"s{mib}.mla", f"t{mib}.tar", f"r{mib}.mla", f"c{mib}.mla"):
+            if os.path.exists(os.path.join(wd, f)):
+                os.remove(os.path.join(wd, f))
+        shutil.rmtree(os.path.join(wd, f"x{mib}"), ignore_errors=True)
+    small, big = sizes
+    for name, by in peaks.items():
+        (ps, rs), (pb, rb) = by[small], by[big]
+        # KiB; growth allowed: 8 MiB of noise (allocator, page cache accounting) - the data grew by (big - small) MiB
+        if pb - ps > 8 * 1024 and pb > 64 * 1024:
+            v.violation(dict(check="cli-memory", clause="NoGrowthWithStream", op=name, stack="cli"),
+                        dict(peaks_kib={str(k): x[0] for k, x in by.items()}, sizes_mib=list(sizes)))
+    shutil.rmtree(wd, ignore_errors=True)
+    ev["cli_memory"] = {n: {str(k): x[0] for k, x in by.items()} for n, by in peaks.items()}
+    log(f"[C15] mlar peak resident memory (KiB) for {small} and {big} MiB: " + ", ".join(f"{n} {by[small][0]}/{by[big][0]}" for n, by in peaks.items()))
+
+
 def main(tier):
     v = Verdict("C15", tier)
     ev = dict(tlc=[])
@@ -28,7 +79,8 @@ def main(tier):
     shutil.rmtree(wd, ignore_errors=True)
     log(f"[C15] {len(events)} peak-heap samples (write / repair / linear extraction x 4 stackings x sizes {sizes} MiB + 2000 interleaved "
         f"files); max peak {max(e['peak'] for e in events) / 2**20:.1f} MiB")
-    cov = dict(evaluations=len(events), distinct_nontrivial=distinct,
+    cli_memory(v, tier, ev)
+    cov = dict(cli_peak_resident_kib=ev.get("cli_memory"), evaluations=len(events), distinct_nontrivial=distinct,
                rule="one sample = one operation (write from a generator to a counting sink, repair and linear extraction from a "
                     "file) on one layer stacking and one size; non-trivial = the operation streamed the whole amount; TLC "
                     "(TraceMem.tla) checks every sample under K + a*files + b*runs and that the peak does not grow with the size",
